@@ -12,7 +12,20 @@ const SEED: [u8; 32] = [7u8; 32];
 
 /// call the parse entry point of `proto` at `layer` on arbitrary text; Ok and Err are both fine
 fn parse_any(proto: Proto, layer: Layer, token: &str, footer: Option<&str>) -> Result<(), (String, String)> {
-  let km = keys::material(proto, &SEED);
+  parse_any_with(proto, layer, token, footer, 0)
+}
+
+/// `unusual_key`: 1 / 2 = parse v1.public input under an RSA-3072 / RSA-4096 public key (0: the ordinary key)
+fn parse_any_with(proto: Proto, layer: Layer, token: &str, footer: Option<&str>, unusual_key: u8) -> Result<(), (String, String)> {
+  let km = if proto == Proto::V1P && unusual_key > 0 {
+    let (sk, pk) = keys::RSA_UNUSUAL[(unusual_key as usize - 1) % 2];
+    match KeyMaterial::new(proto, Some(sk), pk) {
+      Ok(k) => k,
+      Err(_) => return Ok(()),
+    }
+  } else {
+    keys::material(proto, &SEED)
+  };
   let lk = match km.lib() {
     Ok(k) => k,
     Err(_) => return Ok(()),
@@ -48,6 +61,9 @@ pub struct LenCase {
   /// 0 zeros, 1 ones, 2 counting pattern
   content: u8,
   with_footer: bool,
+  /// v1.public only: 1 / 2 = under an RSA-3072 / RSA-4096 public key
+  #[serde(default)]
+  unusual_key: u8,
 }
 
 pub struct ByLength;
@@ -66,7 +82,10 @@ impl Sub for ByLength {
     cl.tag(format!("{}:{}", c.proto.label(), c.layer.label()));
     cl.tag(if (c.len as usize) < c.proto.fixed_len() { "shorter-than-fixed-parts" } else { "at-least-fixed-parts" });
     cl.nontrivial(true);
-    verdict(parse_any(c.proto, c.layer, &token, if c.with_footer { Some("foo") } else { None }), &format!("{} {} parse of a {}-byte payload", c.proto.label(), c.layer.label(), c.len))
+    if c.unusual_key > 0 {
+      cl.tag(format!("v1.public under an RSA-{} key", if c.unusual_key == 1 { 3072 } else { 4096 }));
+    }
+    verdict(parse_any_with(c.proto, c.layer, &token, if c.with_footer { Some("foo") } else { None }, c.unusual_key), &format!("{} {} parse of a {}-byte payload{}", c.proto.label(), c.layer.label(), c.len, if c.unusual_key > 0 { " under an RSA key of 3072 / 4096 bits" } else { "" }))
   }
 }
 
@@ -77,9 +96,17 @@ fn length_cases(max: u32) -> impl Iterator<Item = LenCase> {
       for len in 0..=max {
         for content in 0..3u8 {
           for with_footer in [false, true] {
-            v.push(LenCase { proto, layer, len, content, with_footer });
+            v.push(LenCase { proto, layer, len, content, with_footer, unusual_key: 0 });
           }
         }
+      }
+    }
+  }
+  // v1.public under public keys of 3072 and 4096 bits: every length up to beyond their signature sizes
+  for layer in Layer::ALL {
+    for unusual_key in [1u8, 2] {
+      for len in 0..=(max.max(400) + 300) {
+        v.push(LenCase { proto: Proto::V1P, layer, len, content: 2, with_footer: len % 2 == 1, unusual_key });
       }
     }
   }
@@ -701,7 +728,7 @@ pub fn fuzz_seeds() -> Vec<Vec<u8>> {
 // ----------------------------------------------------------------
 
 pub fn subs() -> Vec<Box<dyn DynSub>> {
-  vec![Box::new(ByLength), Box::new(Cuts), Box::new(AnyText), Box::new(HexKeys), Box::new(HostileClaims), Box::new(DeepInputs), Box::new(ForeignPlaintext)]
+  vec![Box::new(ByLength), Box::new(Cuts), Box::new(AnyText), Box::new(HexKeys), Box::new(HostileClaims), Box::new(DeepInputs), Box::new(ForeignPlaintext), Box::new(crate::c11::TightCrossing { pid: "C09" })]
 }
 
 pub fn run(ctx: &Ctx) -> EvidenceMeta {
@@ -725,6 +752,14 @@ pub fn run(ctx: &Ctx) -> EvidenceMeta {
     Box::new(|| ctx.fuzz_inputs(&AnyText, "fz_anytoken", fuzz_decode)),
     Box::new(|| ctx.enumerate(&HostileClaims, hostile_grid(), false)),
     Box::new(|| ctx.enumerate(&ForeignPlaintext, bytes_grid(), false)),
+    // authentic tokens parsed in a tight loop while the clock runs across their nbf: every order of the library's clock
+    // readings relative to that instant occurs (an entry point that computes with two readings must not unwind for any)
+    Box::new(|| {
+      if !ctx.is_child() {
+        let tight = crate::c11::TightCrossing { pid: "C09" };
+        ctx.enumerate(&tight, [(Proto::V4L, 150u32), (Proto::V2L, 300)].into_iter().map(|(proto, lead_us)| crate::c11::TightCase { proto, lead_us, crossings: ctx.n(400, 6000) }), false)
+      }
+    }),
     Box::new(|| ctx.prop(&ForeignPlaintext, bytes_case(), ctx.n(12_000, 300_000))),
     Box::new(|| {
       if !ctx.is_child() {
@@ -741,6 +776,7 @@ pub fn run(ctx: &Ctx) -> EvidenceMeta {
            arbitrary-text: generated Unicode, 0-6 segments, right header + base64-alphabet noise / random bytes / padding / trailing dots, footer segments that decode to JSON documents (key sets, deep nesting, many empty containers), their unbalanced relatives and special strings, 1 MiB inputs; \
            authentic-token-hostile-claims: authentically encrypted/signed payloads whose exp/nbf/other members carry calendar extremes (year 0000/9999 with offsets, leap seconds, 40 fraction digits), any well-formed or ill-formed timestamp, arbitrary JSON, or that are not objects / not JSON at all. \
            authentic-token-arbitrary-bytes: tokens sealed by the harness's transcription of the specification around byte strings that are not UTF-8 (every class of ill-formed sequence, spliced into text, JSON strings, keys and numbers at any place; documents cut inside a character), NULs, JSON of every top-level type - they pass authentication, so UTF-8 conversion, JSON parsing and claim handling see the bytes; \
+           tight loop: authentic tokens whose nbf lies a few hundred microseconds ahead, parsed again and again until it has passed (400 / 6000 crossings per protocol); \
            deep inputs: footer segments and authentic payloads nested 200 .. 1 000 000 levels deep, parsed on a 2 MiB-stack thread of a helper process that announces each case - if the helper dies, the announced case is the violation. \
            The whole run happens after application callbacks (validators, Serialize impls) have panicked in this process, on a worker thread and on the main one. \
            Oracle: catch_unwind around the entry point; any unwind is a violation keyed by panic location. \
